@@ -15,15 +15,19 @@ def run(ctx, br):
     # (1) logic: schedules with short timeouts / send failures, replayed on the model
     cov = c01.run(ctx, br, profiles=["timeouts", "timeouts", "senderr", "mixed"], prop="C13")
     # (2) wall clock: every transport x stall pattern x timeout
-    touts = [500, 1000, 2000, 5000, 20000, 50000] if quick else [300, 500, 999, 1000, 2000, 5000, 20000, 50000, 200000]
+    touts = [500, 1000, 2000, 5000, 20000, 50000, 300000] if quick else [300, 500, 999, 1000, 2000, 5000, 20000, 50000, 200000]
     reqs = []
     for t in touts:
-        for tr, stalls in (("adapter", ["silent", "late", "write", "flush"]), ("nats", ["silent", "late"]), ("http", ["silent", "late"])):
+        for tr, stalls in (("adapter", ["silent", "late", "write", "flush"]), ("nats", ["silent", "late", "link"]), ("http", ["silent", "late"])):
             for st in stalls:
                 for oneway in ([False, True] if st in ("write", "flush") else [False]):
                     reps = 1 if quick else 3
                     for _ in range(reps):
                         late = t // 1000 + rng.choice([20, 60, 150])
+                        if st == "link":
+                            if t < 20000:
+                                continue          # a link stall shorter than the timeout needs a timeout of some size
+                            late = max(5, (t // 1000) * rng.choice([40, 60, 80]) // 100)
                         reqs.append({"transport": tr, "stall": st, "timeout_us": t, "late_ms": late, "oneway": oneway})
     if not quick:
         for _ in range(200):
